@@ -83,6 +83,8 @@ func runLockmon(cfg *RunCfg, rep *Reporter, cov *Cov) {
 		runLockSeq(cfg, rep, cov, code, seq)
 	})
 	runLockXProc(cfg, rep, cov)
+	runROEmptyDir(cfg, rep, cov)
+	runBlockingOpenFails(cfg, rep, cov)
 }
 
 func runLockSeq(cfg *RunCfg, rep *Reporter, cov *Cov, code int, seq []lockAct) {
@@ -379,6 +381,130 @@ func holdLock(args []string) int {
 	}
 	// "die" or EOF: exit without Close, the kernel drops the lock
 	return 0
+}
+
+// runBlockingOpenFails: the blocking constructors are Opens too - when they fail after the inner
+// Open succeeded (the wrapper cannot read NextOffset: read-only handle, head index unreadable) the
+// directory lock must be released.
+func runBlockingOpenFails(cfg *RunCfg, rep *Reporter, cov *Cov) {
+	for k, typed := range []bool{false, true} {
+		dir := filepath.Join(cfg.Scratch, fmt.Sprintf("bof%d", k))
+		l0, err := kOpen(dir, OpenOpts{Rollover: 1 << 20, Create: true, KeyIndex: true})
+		if err != nil {
+			continue
+		}
+		kPublish(l0, []klevdb.Message{{Key: []byte("k"), Value: []byte("v")}, {Key: []byte("k2"), Value: []byte("v2")}})
+		kClose(l0)
+		_, idx := ref.SegName(0)
+		ip := filepath.Join(dir, idx)
+		fi, err := os.Stat(ip)
+		if err != nil {
+			continue
+		}
+		os.Truncate(ip, fi.Size()-3) // not a whole number of items: unreadable
+		opts := klevdb.Options{Readonly: true, KeyIndex: true}
+		var oerr error
+		gerr := guard(func() error {
+			if typed {
+				l, e := klevdb.OpenTBlocking[string, string](dir, opts, klevdb.StringCodec, klevdb.StringCodec)
+				if e == nil {
+					l.Close()
+				}
+				oerr = e
+			} else {
+				l, e := klevdb.OpenBlocking(dir, opts)
+				if e == nil {
+					l.Close()
+				}
+				oerr = e
+			}
+			return nil
+		})
+		cov.Add("evaluations", 1)
+		if gerr != nil {
+			rep.Report(Violation{Property: "C19", Sig: "lockmon|blocking-open:panic", What: "a blocking Open panicked: " + errText(gerr), Replay: map[string]any{"typed": typed}})
+			continue
+		}
+		outcome := "opened"
+		if oerr != nil {
+			outcome = "failed"
+		}
+		cov.Distinct("lock", fmt.Sprintf("blocking-open-ro|corrupt-head-index|typed=%v|%s", typed, outcome))
+		// whatever the outcome, nothing holds the directory now
+		l2, err := kOpen(dir, OpenOpts{Rollover: 1 << 20, KeyIndex: true, Recover: true})
+		if err != nil && strings.Contains(errText(err), "lock") {
+			rep.Report(Violation{Property: "C19", Sig: "lockmon|blocking-open-failed:lock-not-released", What: fmt.Sprintf("after a read-only blocking Open that %s (%s) the directory is still locked: %s", outcome, errText(oerr), errText(err)), Replay: map[string]any{"typed": typed}})
+		}
+		if err == nil {
+			kClose(l2)
+		}
+		os.RemoveAll(dir)
+	}
+}
+
+// runROEmptyDir: a read-only handle on a directory that holds no segment files at all (never opened
+// for writing) answers like a read-write handle on an empty log - also after GC(0), after which
+// there is no file its (synthetic) segment could be loaded from.
+func runROEmptyDir(cfg *RunCfg, rep *Reporter, cov *Cov) {
+	k := 0
+	for _, icfg := range allCfgs {
+		for _, gcs := range []int{0, 1, 2} {
+			k++
+			rwDir := filepath.Join(cfg.Scratch, fmt.Sprintf("roe-rw%d", k))
+			roDir := filepath.Join(cfg.Scratch, fmt.Sprintf("roe-ro%d", k))
+			os.MkdirAll(roDir, 0o700)
+			o := OpenOpts{KeyIndex: icfg.Keys, TimeIdx: icfg.Times, Rollover: 200, Create: true}
+			oo := ObsOpts{Keys: [][]byte{[]byte("a"), nil}, Times: []int64{0, baseTime}, MaxOff: 2}
+			rw, err := kOpen(rwDir, o)
+			if err != nil {
+				rep.Inconclusive("ro-empty: reference open failed")
+				continue
+			}
+			for g := 0; g < gcs; g++ {
+				kGC(rw, 0)
+			}
+			want := observe(rw, oo)
+			kClose(rw)
+			o.Readonly, o.Create = true, false
+			ro, err := kOpen(roDir, o)
+			cov.Add("evaluations", 1)
+			if err != nil {
+				rep.Report(Violation{Property: "C19", Sig: "lockmon|ro-empty-dir:open-error:" + errClass(err), What: "read-only Open of an existing directory without segment files failed: " + errText(err), Replay: map[string]any{"cfg": icfg.String()}})
+				continue
+			}
+			var got []string
+			for g := 0; g <= gcs; g++ {
+				if g > 0 {
+					if err := kGC(ro, 0); err != nil {
+						got = append(got, "GC => "+errLine(err))
+					}
+				}
+				got = observe(ro, oo)
+			}
+			kClose(ro)
+			// the reference handle created its (empty) first segment, the read-only one has no file at
+			// all: the segment count of Stat differs by construction
+			noStat := func(in []string) []string {
+				var out []string
+				for _, ln := range in {
+					if !strings.HasPrefix(ln, "Stat") {
+						out = append(out, ln)
+					}
+				}
+				return out
+			}
+			want, got = noStat(want), noStat(got)
+			if why, diff := diffObs(want, got); diff {
+				rep.Report(Violation{Property: "C19", Sig: fmt.Sprintf("lockmon|ro-empty-dir:answers-differ:%s:gc=%v", callOf(strings.Trim(strings.SplitN(why, " vs ", 2)[0], `"`)), gcs > 0), What: fmt.Sprintf("a read-only handle on a directory without segment files answers differently from a read-write handle on an empty log (GC(0) calls before the queries: %d): %s", gcs, why), Replay: map[string]any{"cfg": icfg.String(), "gc_calls": gcs}})
+			}
+			if ents, _ := os.ReadDir(roDir); len(ents) > 1 || (len(ents) == 1 && ents[0].Name() != ".lock") {
+				rep.Report(Violation{Property: "C19", Sig: "lockmon|ro-empty-dir:created-files", What: "a read-only handle created files in an empty directory", Replay: map[string]any{"cfg": icfg.String()}})
+			}
+			cov.Distinct("lock", fmt.Sprintf("ro-empty-dir|%s|gc=%d", icfg, gcs))
+			os.RemoveAll(rwDir)
+			os.RemoveAll(roDir)
+		}
+	}
 }
 
 func runLockXProc(cfg *RunCfg, rep *Reporter, cov *Cov) {
